@@ -13,13 +13,20 @@ survives:
   `_serialize_jobs`:
 
       self._config.version += 1                 self._job_status.version += 1
-      self._serialize_config_version()   (1)    self._serialize_job_status_version()   (3)
+      try: self._serialize_config_version() (1) try: self._serialize_job_status_version()   (3)
+      except Exception:                         except Exception:
+          self._config.version -= 1; raise          self._job_status.version -= 1; raise
       self._config_hash = hash(text)            self._serialize_file(text, job_status_file)   (4)
       self._serialize_file(text, config_file) (2)   self._job_status_hash = hash(text)
 
-  i.e. the mutation of the call and the bumped version number are in memory before write (1) / (3) is attempted; the config
-  hash is remembered before write (2), the job-status hash only after write (4); `_serialize_jobs` (bump of the job-status
-  version) is not reached when a write of `_serialize` raised.  (Calls that raise without any write failure — unknown job
+  i.e. the mutation of the call is in memory before write (1) / (3) is attempted; when that write - of the VERSION file -
+  raises, the bump of the version number is rolled back (`Gen.Cluster.cfgVersionAfterFailedWrite` /
+  `jsVersionAfterFailedWrite`, regenerated from the handler; without the handler the handle kept a version number that is on
+  no file - findings/f9f): the handle holds the on-disk version again.  When write (2) / (4) - of the DATA file - raises, the
+  version file holds the bumped number and so does the handle.  The config hash is remembered before write (2), the
+  job-status hash only after write (4); `_serialize_jobs` is not reached when a write of `_serialize` raised.  With
+  `torn = true` the failing write of a version file had already truncated it (`open(f, "w")` succeeded, `write()` raised): the
+  file is left EMPTY, as after a kill inside that write.  (Calls that raise without any write failure — unknown job
   name, an assertion, a version mismatch — are ordinary API operations of `Model/Cluster.lean`: `step` keeps the partly
   updated in-memory copy in the handle.)
 
@@ -40,22 +47,25 @@ def Op.slot : Op → Option Hid
   | .load h _ _ _ => some h
   | op => op.actor
 
-/-- the in-memory job status with the version it had before the call (its bump was not reached) -/
+/-- the in-memory job status with the version it had before the call (its bump was not reached); a handle without a job status
+    has none afterwards either (no call that writes a file loads one) -/
 def restoreJsVersion (x x' : Handle) : Option JsView :=
-  match x.js, x'.js with
-  | some j, some j' => some { j' with version := j.version }
-  | _, r => r
+  match x.js with
+  | some j => x'.js.map fun j' => { j' with version := j.version }
+  | none => none
 
 /-- The handle after its call raised at the write of file `f`: `x` the handle before the call, `x'` the handle the completed
     call would have left. -/
 def failedHandle (x x' : Handle) : FileId → Handle
-  | .cfgVer => { x' with cfgHash := x.cfgHash, js := restoreJsVersion x x', jsHash := x.jsHash }
+  | .cfgVer => { x' with cfg := { x'.cfg with version := (cfgVersionAfterFailedWrite x'.cfg.version).toNat },
+                         cfgHash := x.cfgHash, js := restoreJsVersion x x', jsHash := x.jsHash }
   | .cfg => { x' with js := restoreJsVersion x x', jsHash := x.jsHash }
-  | .jsVer => { x' with jsHash := x.jsHash }
+  | .jsVer => { x' with js := x'.js.map fun j => { j with version := (jsVersionAfterFailedWrite j.version).toNat },
+                        jsHash := x.jsHash }
   | .js => { x' with jsHash := x.jsHash }
 
 /-- The `(k+1)`-th file write of `op` raises OSError.  If the call performs at most `k` writes it is exactly `apiT`. -/
-def failT (t : TSys) (op : Op) (k : Nat) : TSys × Res :=
+def failT (t : TSys) (op : Op) (k : Nat) (torn : Bool := false) : TSys × Res :=
   let r := apiT t op
   let ws := writesOf t.s.disk r.1.s.disk
   match ws[k]? with
@@ -68,9 +78,11 @@ def failT (t : TSys) (op : Op) (k : Nat) : TSys × Res :=
         match t.s.handles h, r.1.s.handles h with
         | some x, some x' => fun q => if q = h then some (failedHandle x x' f) else t.s.handles q
         | _, _ => t.s.handles
-    ({ t with s := { t.s with disk := { tornDisk t.s.disk r.1.s.disk k with
-                                          marker := if op.takesLock then markerAfter (.err .ioError) else t.s.disk.marker },
-                              handles := hs } }, .err .ioError)
+    ({ s := { t.s with disk := { tornDisk t.s.disk r.1.s.disk k with
+                                   marker := if op.takesLock then markerAfter (.err .ioError) else t.s.disk.marker },
+                       handles := hs },
+       cfgVerTorn := t.cfgVerTorn || (torn && decide (f = FileId.cfgVer)),
+       jsVerTorn := t.jsVerTorn || (torn && decide (f = FileId.jsVer)) }, .err .ioError)
 
 /-- a call parked inside its lock section -/
 structure Pending where
@@ -105,7 +117,7 @@ inductive FRes where
 
 inductive FOp where
   | base (op : TOp)
-  | failWrite (op : Op) (k : Nat)
+  | failWrite (op : Op) (k : Nat) (torn : Bool := false)
   | stallBegin (op : Op) (k : Nat)
   | stallEnd
   deriving DecidableEq, Repr
@@ -114,7 +126,7 @@ inductive FOp where
 def FOp.call : FOp → Option Op
   | .base (.api op) => some op
   | .base (.crash op _ _ _) => some op
-  | .failWrite op _ => some op
+  | .failWrite op _ _ => some op
   | .stallBegin op _ => some op
   | .stallEnd => none
 
@@ -167,7 +179,7 @@ def stepF (f : FSys) (fop : FOp) : FSys × FRes :=
     else
       match fop with
       | .base top => ({ f with t := (stepT f.t top).1 }, FRes.ofT (stepT f.t top).2)
-      | .failWrite op k => ({ f with t := (failT f.t op k).1 }, .res (failT f.t op k).2)
+      | .failWrite op k torn => ({ f with t := (failT f.t op k torn).1 }, .res (failT f.t op k torn).2)
       | .stallBegin op k => stallBeginF f op k
       | .stallEnd => stallEndF f
 
@@ -184,7 +196,7 @@ def FOp.ofT (op : TOp) : FOp := .base op
 
 def FOp.isTamper : FOp → Bool
   | .base op => op.isTamper
-  | .failWrite op _ => op.isTamper
+  | .failWrite op _ _ => op.isTamper
   | .stallBegin op _ => op.isTamper
   | .stallEnd => false
 
